@@ -8,16 +8,27 @@ Tie
       lfilter   scipy.signal.lfilter vs the model's transposed direct-form-II recursion
       srs       srs.srs(getresp=True, rolloff='none', parallel='no') over the full
                 stype x ic x peak x time x eqsine grid vs the model pipeline (history + spectrum)
-      rolloff   srs.srs(rolloff=linear|lanczos|fft|prefilter) vs model fed with the output of the
-                real roll function (the resampler's own contract is C19)
+      rolloff   srs.srs(rolloff=linear|lanczos|fft|prefilter, ppc varied) vs the model `srsRolled`, which
+                itself decides whether / by which factor to resample; only the resampled values come
+                from the real roll function (the resampler's own contract is C19)
+      index     EXACT: resp['sr'], len(hist), resp['t'][0], resp['t'][-1] vs the model's M, N, S over a
+                (rolloff, time, N incl. 1 and 2, sr, freq, ppc, ic) grid incl. sr/max(freq) == ppc and
+                one ulp either side, 0 Hz only, prefilter on <= 12 samples (raises)
       errors    empty record / empty residual window raise <-> model `none`
       exact     model closed-form oscillator stepping vs srs.srs histories (numerical shadow of
-                theorem ramp_invariant)
+                theorem ramp_invariant);  exact0: the same for the rigid oscillator (0 Hz);
+                steady: closed form started in steady state vs ic='steady' histories;
+                resid: closed-form free decay vs time='residual' histories
+      xcol      the filter-free specification `exactCol` (closed form + ic rule + appended cycle +
+                window + peak) vs srs.srs over the full option grid (shadow of
+                srs_column_is_exact_response_peak)
       vrs       srs.vrs on uniform / log / random grids, with and without off-grid Fn, vs the model's
-                area weights and transmissibility (psd.interp's output fed to both sides)
+                area weights and transmissibility (psd.interp's output fed to both sides); merged grid
+                np.unique(hstack(freq, Fn)) exactly; Miles' value
 Oracle (model-free): exact oscillator response by an augmented-matrix exponential
 (scipy.linalg.expm, dimensionless time) under each initial-condition rule, window and peak
-statistic; spectrum relations; srs_frf / vrs / Miles closed forms.
+statistic; roll-off decision and factor in exact rational arithmetic; spectrum relations;
+srs_frf / vrs / Miles closed forms.
 """
 import math
 import struct
@@ -27,7 +38,7 @@ import numpy as np
 from runner import TieBroken
 
 ID = "C03"
-LEAN_MODULES = ["PyYetiVerif.Props.C03", "PyYetiVerif.Props.C03b", "PyYetiVerif.Audit.C03"]
+LEAN_MODULES = ["PyYetiVerif.Props.C03", "PyYetiVerif.Props.C03b", "PyYetiVerif.Props.C03c", "PyYetiVerif.Audit.C03"]
 AUDIT_FILE = "PyYetiVerif/Audit/C03.lean"
 THEOREMS = [
     "PyYetiVerif.C03." + n
@@ -42,7 +53,10 @@ THEOREMS = [
         "free_decay_solves_ode residual_is_free_decay srs_residual_is_free_decay_peak rigid_solves_ode ramp_invariant_rigid "
         "rigid_response_values rolloff_triggers_iff rolloff_factor_ge_two rolloff_meets_ppc rolloff_step_triggered "
         "rolloff_step_untouched rolloff_index_values rolloff_indices residual_starts_at_record_end vrs_grid_sorted "
-        "vrs_grid_mem vrs_weights vrs_gain_is_normSq_H vrs_is_quadrature_of_H2_psd vrs_needs_two_points srs_frf_gain_is_H"
+        "vrs_grid_mem vrs_weights vrs_gain_is_normSq_H vrs_is_quadrature_of_H2_psd vrs_needs_two_points srs_frf_gain_is_H "
+        "rolloff_linear_grid_consistent_iff "
+        # Props/C03c.lean
+        "miles_integrand_is_normSq miles_white_noise_integral miles_is_white_noise_integral"
     ).split()
 ]
 TRUSTED = [
@@ -50,48 +64,76 @@ TRUSTED = [
     "correspondence harness harness/props/c03.py; Lean Float = IEEE double through the C library",
     "scipy.signal.lfilter modelled as the order<=2 transposed direct-form-II recursion with zero state (measured every run)",
     "theorems are over the reals: round-off of the recursion is measured, not proved (conditioning domain sr/fn <= 2000)",
-    "roll-off resamplers (dsp.resample, scipy.signal.resample, filtfilt, interp1d) are not modelled: their output is fed to both sides (contract: C19)",
-    "srs_frf and Miles closed forms are checked by the oracle only; vrs: quadrature weights and transmissibility are modelled "
-    "(correspondence) and the weights are proved to be trapezoid + half end cells; psd.interp is fed to both sides",
+    "roll-off: the decision, the factor, the new rate and the new lengths are modelled (exact index stream); the resampled "
+    "VALUES (dsp.resample, scipy.signal.resample, filtfilt, interp1d) are not modelled: the real output is fed to the model "
+    "(contract: C19); the lengths N*factor-1 / factor*(N - N%2) / N*factor are measured by the index stream",
+    "vrs: merged grid, quadrature weights, transmissibility and Miles' formula are modelled and tied; psd.interp is fed to both "
+    "sides; srs_frf: the transfer function identity is proved, the routine itself (frequency merging, interpolation, max) is "
+    "checked by the oracle only",
 ]
 RULE = (
     "coef: seeded (Q, sr, fn) with Q in (0.5, 200], sr/fn log-uniform in [2.05, 2000] plus wn = 0, six stypes; "
     "lfilter: random stable filters of order 0-2 and the SRS coefficient sets on random records (incl. empty); "
-    "srs: every stype x ic x peak x time x eqsine combination (864) per round with a seeded record "
+    "srs / xcol: every stype x ic x peak x time x eqsine combination (864) per round with a seeded record "
     "(1-60 samples, 1-3 columns, 1-D packaging, 1-3 frequencies incl. 0 Hz where defined), one case = one "
-    "srs.srs call compared on all histories and spectrum values; rolloff: the four resamplers, triggered and "
-    "not triggered; non-trivial = the response history is not identically zero; distinct by the full input"
+    "srs.srs call compared on all histories and spectrum values; rolloff: the four resamplers, ppc in {8, 10.5, 12, 20}, "
+    "triggered and not triggered, records of 2-128 samples; index: 5 rolloff x 3 time x 9-11 lengths (1, 2, ...) x 13 "
+    "(sr, freq, ppc) configurations (boundary sr/max(freq) = ppc, one ulp below/above, 0 Hz, several ppc); "
+    "exact0/steady/resid: six stypes x seeded records; non-trivial = the response history is not identically zero; "
+    "distinct by the full input"
 )
 ASSUMPTIONS = [
     "sr/fn <= 2000 and Q > 0.5 (the property's conditioning domain); inputs outside are not generated",
-    "numeric agreement |impl - model| <= 1e-9 * scale (scale = largest magnitude in the history incl. add-back); "
-    "coefficients <= 1e-12 * (sum of magnitudes of the added terms)",
+    "numeric agreement |impl - model| <= 1e-9 * scale (scale = largest magnitude in the history incl. add-back) for "
+    "filter-vs-filter streams, 1e-7 * scale for closed-form-vs-filter streams (exact, steady, resid, xcol); "
+    "coefficients <= 1e-12 * (sum of magnitudes of the added terms); index stream: exact",
     "ic='steady' with a 0 Hz oscillator and stype reldisp/pvelo divides by zero in the code (inf/nan): skipped and counted",
+    "rolloff='prefilter' on a record of <= 12 samples raises ValueError inside scipy.signal.filtfilt (padlen): modelled as "
+    "the error case, not counted as a failure",
+    "peak='rms' on an empty residual window returns nan with a RuntimeWarning instead of raising: the model's error case "
+    "covers it (index/errors streams use peak='abs')",
 ]
 PARTIAL = (
-    "full for the time-domain srs path with rolloff='none'; not proved (oracle/correspondence only): "
-    "round-off of the recursion, the four roll-off resamplers, srs_frf/vrs/Miles closed forms, rms peak statistics relations; "
-    "missing (stretch): the ic='steady' statement 'response to sig - s1 plus add-back = exact response to sig started in steady "
-    "state' is proved only at the level of the gains (dc_gain, steady_addback_is_dc_gain) - the oracle simulates it directly; "
-    "ramp_invariant covers wn > 0 (the wn = 0 coefficient branches are translated and correspondence-checked, not proved exact)"
+    "time-domain srs path: full for rolloff='none' and f > 0 (srs_column_is_exact_response_peak: every stype x ic x peak x "
+    "time x eqsine; steady_ic_exact, shift_ic_exact, residual_is_free_decay), wn = 0 coefficient branches proved exact for the "
+    "rigid oscillator (ramp_invariant_rigid; the ic/window pipeline at 0 Hz is tied by correspondence only - ic='steady' has no "
+    "steady state there); roll-off: decision, factor, new rate, M/N/S and the residual start are proved for ANY resampler of the "
+    "stated output length (rolloff_indices, residual_starts_at_record_end), the resampled values are not modelled (C19) - "
+    "finding srs-rolloff-linear (factor >= 3) is stated as rolloff_linear_grid_consistent_iff; vrs: merged grid, weights, "
+    "|H|^2, quadrature proved (vrs_is_quadrature_of_H2_psd), Miles proved equal to the white-noise integral through the "
+    "pseudo-acceleration transmissibility (miles_is_white_noise_integral; the (1 + 1/Q^2) factor of the absolute-acceleration "
+    "integral is stated in prose only); not proved (oracle/correspondence only): round-off of the recursion, srs_frf's "
+    "frequency merging / interpolation / maximisation (only its transfer function srs_frf_gain_is_H), psd.interp, rms peak "
+    "relations"
 )
 MANIFEST = {
     "level_text": "Proof (Lean 4, kernel-checked, standard axioms only): the six coefficient functions of srs.py are "
-    "machine-translated into Lean on every run and proved equal to the model; over the reals, for Q > 1/2, dT > 0, wn > 0, "
-    "for every response type and every input record, lfilter with the code's (b, a) returns exactly the closed-form "
-    "response of the damped oscillator to the linearly interpolated input started at rest one sample before the record "
-    "(ramp_invariant; the closed form is proved to solve the ODE), a = [1, -2C, E^2] is the characteristic polynomial of "
-    "the exact one-step matrix, b_pvelo = wn b_reldisp, b_pacce = wn^2 b_reldisp, sum(b) = gain * sum(a) with the gains the "
-    "steady-state add-back uses, lfilter is linear and causal, abs = max(pos, neg), total >= primary/residual, "
-    "eqsine divides by Q, column permutation invariance, window lengths N / N + ceil(sr/minf) / ceil(sr/minf). "
-    "The model pipeline (ic rules, zero padding, windows, peak selectors, add-back) is tied to srs.srs by numeric "
-    "correspondence over the full option grid.",
+    "machine-translated into Lean on every run and proved equal to the model; over the reals, for Q > 1/2, sr > 0, f > 0, "
+    "for every response type, initial-condition rule, peak rule, time window and eqsine flag, the history and the spectrum value "
+    "that the model of srs.srs (rolloff='none') produces equal a filter-free specification: the closed-form response of the damped "
+    "oscillator to the linearly interpolated record (proved to solve the ODE), started at rest one sample before the record "
+    "('zero', 'shift', 'mshift' on the shifted record) or in steady state under sig[0] ('steady', incl. the add-back per "
+    "response type), continued with zero input over ceil(sr/minf) appended samples, cut to primary [0,N) / total / residual "
+    "[N, N+nz) and reduced by the stated peak statistic (srs_column_is_exact_response_peak); the residual window is the "
+    "closed-form free decay sampled on the grid (residual_is_free_decay); the wn = 0 branches are exact for u'' = -x(t) "
+    "(ramp_invariant_rigid); a = [1, -2C, E^2] is the characteristic polynomial of the exact one-step matrix, b_pvelo = wn "
+    "b_reldisp, b_pacce = wn^2 b_reldisp, lfilter linear and causal, abs = max(pos, neg), total >= primary/residual, eqsine "
+    "divides by Q, column permutation invariance; roll-off: resampling happens iff the method resamples, max(freq) != 0 and "
+    "sr/max(freq) < ppc (strict), the factor ceil(ppc/(sr/mf)) is >= 2 and meets ppc, and for any resampler of the stated output "
+    "length M, N, S and resp['t'] refer to the resampled record (rolloff_indices); vrs: the merged grid is the sorted union, the "
+    "weights are the stated vector, the gain is |H|^2 of the complex transmissibility, z_vrs is sqrt(trapezoid + half end cells) "
+    "on any grid; srs_frf's transfer function equals H; Miles' value equals sqrt(W * integral_0^inf |H_pa|^2 df) "
+    "(improper integral evaluated in Lean). The model pipeline is tied to srs.srs by numeric correspondence over the full "
+    "option grid and by an exact index correspondence for the roll-off / window bookkeeping.",
     "level_note": "Trusted: Lean kernel; propext, Classical.choice, Quot.sound; the translator and the Python harness; "
     "scipy.signal.lfilter as modelled (measured). Real-number theorems: floating-point round-off is measured by the "
-    "correspondence check and the model-free oracle inside sr/fn <= 2000. Roll-off resamplers, srs_frf, vrs and Miles are "
-    "checked by the oracle only.",
+    "correspondence check and the model-free oracle inside sr/fn <= 2000. Only tied/measured, not proved: the resampled "
+    "values of the four roll-off methods (fed to the model; contract C19), psd.interp, srs_frf's grid merging/interpolation/"
+    "maximum, the 0 Hz pipeline beyond the coefficient branches. Open finding reported by the oracle: rolloff='linear' with "
+    "factor >= 3 (linroll's np.linspace(0, t_last, N*factor-1) grid is not spaced 1/(sr*factor)).",
     "technique": "Lean 4 proof (Cayley-Hamilton elimination of the exact state recursion into the filter; sympy-found "
-    "linear_combination certificates checked by the kernel) + source->Lean translator + numeric differential correspondence",
+    "linear_combination certificates checked by the kernel; explicit antiderivative for Miles) + source->Lean translator + "
+    "numeric and exact differential correspondence",
 }
 
 STYPES = ["absacce", "relacce", "reldisp", "relvelo", "pvelo", "pacce"]
@@ -438,7 +480,7 @@ def correspondence(ctx):
 
     # ---- stream rolloff (the Lean model `srsRolled` decides whether and by which factor to resample; the
     # real resampler's output is supplied and used by the model only if it decides to resample) ------------
-    nroll = ctx.pick(9, 45)
+    nroll = ctx.pick(18, 60)
     rollfun = {"linear": srs.linroll, "lanczos": srs.lanroll, "fft": srs.fftroll, "prefilter": srs.preroll}
     for roll in ROLLS:
         for i in range(nroll):
@@ -827,30 +869,46 @@ def _shift(sig2d, ic):
     return sig2d - sig2d[0]
 
 
-def _upsample(sg, sr, roll, mf, ppc=12):
+class _ShortPrefilter(Exception):
+    pass
+
+
+def _upsample(sg, sr, roll, mf, ppc=12, as_built=True):
     """the documented roll-off resampling, called on the library routines directly (not through
-    srs.linroll/lanroll/fftroll/preroll): -> (signal, sample rate).  The resamplers' own
-    contract is C19; here only *where* srs applies them and what it does afterwards matters."""
+    srs.linroll/lanroll/fftroll/preroll): -> (signal, sample rate, factor).  The decision (resample
+    iff the minimum points per cycle is *not met*: sr/mf < ppc, strictly) and the factor are computed
+    in exact rational arithmetic.  The resamplers' own contract is C19; here only *where* srs applies
+    them and what it does afterwards matters.  `as_built=False` (linear only): the piecewise-linear
+    interpolant of the record evaluated on the grid k/(sr*factor) the result is labelled with, i.e.
+    (N-1)*factor+1 points; `as_built=True`: linroll's np.linspace(0, t_last, N*factor-1) grid (the two
+    coincide for factor 2 only, see finding srs-rolloff-linear)."""
+    from fractions import Fraction
+
     from scipy import signal as sps
 
-    if roll == "prefilter":
-        return sps.filtfilt(np.array([0.8767, 1.7533, 0.8767]), np.array([1, 1.6296, 0.8111, 0.0659]), sg, axis=0), sr
     N = sg.shape[0]
-    if roll == "none" or mf == 0 or not (sr / mf < ppc) or N <= 1:
-        return sg, sr
-    factor = int(math.ceil(ppc / (sr / mf)))
+    if roll == "prefilter":
+        if N <= 12:  # scipy.signal.filtfilt: the record must be longer than padlen = 12
+            raise _ShortPrefilter()
+        return sps.filtfilt(np.array([0.8767, 1.7533, 0.8767]), np.array([1, 1.6296, 0.8111, 0.0659]), sg, axis=0), sr, 1
+    if roll == "none" or mf == 0 or N <= 1 or not (Fraction(sr) / Fraction(mf) < Fraction(ppc)):
+        return sg, sr, 1
+    factor = int(math.ceil(Fraction(ppc) * Fraction(mf) / Fraction(sr)))
     if roll == "linear":
         told = np.arange(N) / sr
-        tnew = np.linspace(0.0, told[-1], N * factor - 1)
-        return np.column_stack([np.interp(tnew, told, sg[:, c]) for c in range(sg.shape[1])]), sr * factor
+        if as_built:
+            tnew = np.linspace(0.0, told[-1], N * factor - 1)
+        else:
+            tnew = np.arange((N - 1) * factor + 1) / (sr * factor)
+        return np.column_stack([np.interp(tnew, told, sg[:, c]) for c in range(sg.shape[1])]), sr * factor, factor
     if roll == "fft":
         if N & 1:
-            return sps.resample(sg[:-1], factor * (N - 1), axis=0), sr * factor
-        return sps.resample(sg, factor * N, axis=0), sr * factor
+            return sps.resample(sg[:-1], factor * (N - 1), axis=0), sr * factor, factor
+        return sps.resample(sg, factor * N, axis=0), sr * factor, factor
     if roll == "lanczos":
         from pyyeti import dsp
 
-        return dsp.resample(sg, factor, 1, pts=65, axis=0), sr * factor
+        return dsp.resample(sg, factor, 1, pts=65, axis=0), sr * factor, factor
     raise ValueError(roll)
 
 
@@ -924,9 +982,12 @@ def _oracle_srs(case):
     sr, freqs, Q = case["sr"], case["freq"], case["Q"]
     st, ic, pk, tm, es = case["stype"], case["ic"], case["peak"], case["time"], case["eqsine"]
     roll = case.get("rolloff", "none")
-    res = _call_srs(srs, sig, sr, freqs, Q, st, ic, pk, tm, es, rolloff=roll)
+    ppc = case.get("ppc", 12)
+    res = _call_srs(srs, sig, sr, freqs, Q, st, ic, pk, tm, es, rolloff=roll, ppc=ppc)
     inp = dict(case)
     rtag = "" if roll == "none" else ":rolloff=" + roll
+    if res[0] == "raise" and roll == "prefilter" and np.atleast_1d(sig).shape[0] <= 12:
+        return fails  # scipy.signal.filtfilt refuses records of <= 12 samples (reported as an observation, not a failure)
     if res[0] == "raise":
         fails.append({"family": "srs-raises:%s:ic=%s:time=%s%s" % (st, ic, tm, rtag), "what": "srs.srs raises " + res[1],
                       "input": inp, "observed": res[1], "required": "a spectrum"})
@@ -935,7 +996,8 @@ def _oracle_srs(case):
     sig2d = sig.reshape(-1, 1) if sig.ndim == 1 else sig
     H = sig2d.shape[1]
     # the record the oscillators see: ic rule, then the roll-off resampling at the (new) rate sr
-    sg, sr = _upsample(_shift(sig2d, ic), sr, roll, max(freqs))
+    sr_in = sr
+    sg, sr, factor = _upsample(_shift(sig2d, ic), sr, roll, max(freqs), ppc)
     N = sg.shape[0]
     pos = [f for f in freqs if f > 0]
     nz = int(math.ceil(sr / min(pos))) if (pos and tm != "primary") else 0
@@ -980,6 +1042,25 @@ def _oracle_srs(case):
                               "what": "spectrum value is not the stated peak statistic of the returned history",
                               "input": dict(inp, freq_index=j, column=c), "observed": float(sh[j, c]), "required": want})
                 return fails
+    if roll == "linear" and factor >= 3:
+        # finding: linroll evaluates the interpolant on np.linspace(0, t_last, N*factor - 1), which has the spacing
+        # 1/(sr*factor) only for factor = 2; the result is nevertheless labelled with sr*factor
+        sgc = _upsample(_shift(sig2d, ic), sr_in, roll, max(freqs), ppc, as_built=False)[0]
+        Nc = sgc.shape[0]
+        lens = {"primary": Nc, "total": Nc + nz, "residual": nz}[tm]
+        dev = None
+        if tm != "residual" and all(f > 0 for f in freqs):
+            ex = _exact_history(sgc[:, 0], sig2d[0, 0], sr, freqs[0], Q, ic, nz)[st] / (Q if es else 1.0)
+            m = min(len(ex), hist.shape[0])
+            dev = float(np.max(np.abs(hist[:m, 0, 0] - ex[:m])) / max(float(np.max(np.abs(ex))), 1e-300))
+        if hist.shape[0] != lens or (dev is not None and dev > 1e-6):
+            fails.append({"family": "srs-rolloff-linear:factor>=3:time-grid",
+                          "what": "rolloff='linear' with an up-sampling factor >= 3: the record is interpolated on a grid of N*factor-1 "
+                                  "points spanning [0, (N-1)/sr], whose spacing is not 1/(sr*factor); the history is not the response to "
+                                  "the linearly interpolated record at the times resp['t']",
+                          "input": inp,
+                          "observed": {"factor": factor, "primary_samples": int(N), "max_rel_deviation_from_exact": dev},
+                          "required": {"factor": factor, "primary_samples": int(Nc), "max_rel_deviation_from_exact": 0.0}})
     return fails
 
 
@@ -1187,6 +1268,8 @@ def _hint_cases(hints, rng):
         if inp.get("kind") == "srs":
             c = {k: inp[k] for k in ("kind", "sig", "sr", "freq", "Q", "stype", "ic", "peak", "time", "eqsine")}
             c["rolloff"] = inp.get("rolloff", "none")
+            if "ppc" in inp:
+                c["ppc"] = inp["ppc"]
             if len(np.asarray(c["sig"]).reshape(-1)) == 0:
                 continue
             out.append(c)
@@ -1257,9 +1340,19 @@ def search(ctx, hints):
                 freqs = [mf * float(rng.uniform(0.15, 0.9)), mf][: 1 + int(rng.integers(0, 2))][::-1]
                 if mf not in freqs:
                     freqs = [mf]
-                sig = _rand_sig(rng, int(rng.choice([40, 64, 97])), int(rng.integers(1, 3)))
+                sig = _rand_sig(rng, int(rng.choice([40, 64, 97] if roll == "prefilter" else [40, 64, 97, 2, 3, 13])),
+                                int(rng.integers(1, 3)))
                 cases.append(_case_dict(sig, sr, freqs, float(rng.choice([5.0, 10.0, 25.0, 50.0])), st, ic,
                                         PEAKS[int(rng.integers(0, 6))], tm, bool(rng.integers(0, 2)), rolloff=roll))
+            if roll != "prefilter":
+                # ppc other than the default; sr/max(freq) exactly equal to ppc (the minimum is met: no resampling)
+                # and one ulp below it; a one-sample and a two-sample record
+                st = STYPES[int(rng.integers(0, 6))]
+                for sr, freqs, ppc, n in ((120.0, [10.0, 2.5], 12.0, 30), (120.0, [10.000000000000002, 2.5], 12.0, 30),
+                                          (48.0, [12.0, 1.5], 4.0, 17), (200.0, [45.0, 11.0], 25.0, 2), (200.0, [45.0], 8.0, 1),
+                                          (1000.0, [300.0, 40.0], 12.5, 24)):
+                    cases.append(_case_dict(_rand_sig(rng, n, 1), sr, freqs, 10.0, st, ICS[int(rng.integers(0, 4))], "abs", tm, False,
+                                            rolloff=roll, ppc=ppc))
     for case in cases:
         ctx.count("oracle:" + case["kind"] + (":rolloff" if case.get("rolloff", "none") != "none" else "")
                   + (":" + case["grid"] + ("+Fn" if case.get("Fn") else "") if case["kind"] == "vrs" else ""))
